@@ -27,7 +27,7 @@ Qed.
 Lemma calc_scale_plain d tout sc : calc_scale WPlain d tout = Ok sc -> sc = scaling_default.
 Proof.
   unfold calc_scale. destruct d as [k xs|t xs].
-  - destruct (num_eq _ _ && num_eq _ _); intros H; inversion H; reflexivity.
+  - destruct (num_eq _ _ && num_eq _ _ && negb _); intros H; inversion H; reflexivity.
   - destruct (d_mn (view (InI t xs))); try discriminate.
     destruct (d_mx (view (InI t xs))); try discriminate.
     unfold iu_decide. destruct (negb (scaling_needed_ii t tout z z0)); intros H; inversion H; reflexivity.
@@ -89,8 +89,26 @@ Lemma mgh_clips_witness :
             /\ o_raw o = [32767].
 Proof. eexists. split; vm_compute; reflexivity. Qed.
 
-(* S-C02d: plain ArrayWriter (Analyze): [0, +inf] as uint8 is written as [0, 255] *)
-Lemma plain_inf_witness :
-  exists o, image_write caps_analyze (InF K32 [S754_zero false; S754_infinity false]) ity_uint8 = Ok (scaling_default, o)
-            /\ o_raw o = [0; 255].
-Proof. eexists. split; vm_compute; reflexivity. Qed.
+(* former finding S-C02d (repaired by fix b5843164): the plain ArrayWriter accepts float data for
+   an integer type only when all finite values are zero AND there is no infinity; [0, +inf] as
+   uint8 through Analyze is now refused *)
+Lemma plain_float_accepts k xs tout sc o :
+  writer_write WPlain (InF k xs) tout = Ok (sc, o) ->
+  sc = scaling_default /\ existsb is_inf_sf xs = false
+  /\ (let v := view (InF k xs) in num_eq (d_mn v) (NI 0) && num_eq (d_mx v) (NI 0)) = true.
+Proof.
+  unfold writer_write. intros H. apply bind_ok in H as (sc0 & Hc & H).
+  apply bind_ok in H as (o0 & _ & H). inversion H; subst sc0 o0. clear H.
+  pose proof (calc_scale_plain _ _ _ Hc) as E. split; [exact E|].
+  unfold calc_scale in Hc. cbv zeta in Hc.
+  destruct (num_eq (d_mn (view (InF k xs))) (NI 0) && num_eq (d_mx (view (InF k xs))) (NI 0)) eqn:Z0;
+    cbn [andb] in Hc; [|discriminate].
+  destruct (negb (d_has_inf (view (InF k xs)))) eqn:I; [|discriminate].
+  split; [|reflexivity].
+  unfold view in I. destruct (finite_range_f k xs) as [[mn mx] hn]. cbn in I.
+  now destruct (existsb is_inf_sf xs).
+Qed.
+
+Lemma plain_inf_refused :
+  image_write caps_analyze (InF K32 [S754_zero false; S754_infinity false]) ity_uint8 = Err EWriterError.
+Proof. vm_compute. reflexivity. Qed.
